@@ -23,9 +23,34 @@ impl<T> Drop for VerifWaitList<T> {
     }
 }
 
+/// Reads the real wait list for the simulator (all simulated tasks share one OS thread and are switched only at
+/// scheduling points, none of which lies inside an operation on the list).
+#[cfg(all(kanal_verif, not(feature = "std-mutex")))]
+fn verif_list_waiters<T>(chan: usize) -> alloc::vec::Vec<usize> {
+    let ch = unsafe { &*(chan as *const ChannelInternal<T>) };
+    ch.wait_list.iter().map(|s| s.verif_addr()).collect()
+}
+#[cfg(all(kanal_verif, not(feature = "std-mutex")))]
+#[inline(always)]
+fn verif_register<T>(internal: &Internal<T>) {
+    crate::verif::rt::wl_register(
+        internal.data_ptr() as usize,
+        unsafe { internal.raw() } as *const _ as usize,
+        verif_list_waiters::<T>,
+    );
+}
+#[cfg(kanal_verif)]
+impl<T> Drop for ChannelInternal<T> {
+    fn drop(&mut self) {
+        crate::verif::rt::wl_unregister(self as *const Self as usize);
+    }
+}
+
 /// Acquire mutex guard on channel internal for use in channel operations
 #[inline(always)]
 pub(crate) fn acquire_internal<T>(internal: &'_ Internal<T>) -> MutexGuard<'_, ChannelInternal<T>> {
+    #[cfg(all(kanal_verif, not(feature = "std-mutex")))]
+    verif_register(internal);
     #[cfg(not(feature = "std-mutex"))]
     return internal.lock();
     #[cfg(feature = "std-mutex")]
@@ -40,6 +65,7 @@ pub(crate) fn try_acquire_internal<T>(
 ) -> Option<MutexGuard<'_, ChannelInternal<T>>> {
     #[cfg(all(kanal_verif, not(feature = "std-mutex")))]
     {
+        verif_register(internal);
         let guard = internal.try_lock();
         if guard.is_some() {
             crate::verif::rt::cs_enter(unsafe { internal.raw() } as *const _ as usize);
